@@ -263,7 +263,18 @@ func c12X2(l *core.Ledger, r *rt) {
 			for _, h := range sx.LoopHeads(f) {
 				// bounded loops (range over a finite collection, counted) are fine: only consider loops that contain a blocking operation or are infinite
 				hn := sx.Node{B: h, I: 0}
+				observesBase := func(nd sx.Node) bool { return false }
+				_ = observesBase
 				observes := func(nd sx.Node) bool {
+					// a non-blocking drain of the request queue: every cycle takes one request out, the
+					// default case leaves the loop; it ends when the queue is empty
+					if s2, isSel := nd.Instr().(*ssa.Select); isSel && !s2.Blocking {
+						for _, st := range s2.States {
+							if st.Dir == types.RecvOnly && isRequestChan(st.Chan.Type()) {
+								return true
+							}
+						}
+					}
 					s, ok := nd.Instr().(*ssa.Select)
 					if !ok {
 						return false
@@ -414,7 +425,47 @@ func c12X4(l *core.Ledger, r *rt) {
 				_, must := sx.MustPassThrough(sx.Entry(sfn), isDrain, sx.IsReturn)
 				drains = must
 			}
-			l.Check(drains, "C12-X4", key, mc.Pos(), "buffered, but the sender drains the queue before returning",
+			// and nothing gets into the queue behind the drain unanswered: after a successful hand-off
+			// enqueue looks at the node context again (the request got in after the last drain exactly
+			// when the context was already done at that point)
+			recheck := false
+			if eq := findEnqueueFn(l, r); eq != nil {
+				var qEdges []sx.Edge
+				sx.AllInstrs(eq, func(_ sx.Node, in ssa.Instruction) {
+					if s, isSel := in.(*ssa.Select); isSel {
+						for i, st := range s.States {
+							if st.Dir == types.SendOnly && isRequestChan(st.Chan.Type()) {
+								if e, found := selectCaseEdge(s, i); found {
+									qEdges = append(qEdges, e)
+								}
+							}
+						}
+					}
+				})
+				looksAtNodeCtx := func(nd sx.Node) bool {
+					c, isCall := nd.Instr().(*ssa.Call)
+					if !isCall || !c.Call.IsInvoke() {
+						return false
+					}
+					if nm := c.Call.Method.Name(); nm != "Err" && nm != "Done" {
+						return false
+					}
+					return sx.All(sx.Origins(c.Call.Value), func(o sx.Origin) bool {
+						return o.Kind == sx.KField && o.Field != nil && o.Field.Name() == "parentCtx"
+					})
+				}
+				recheck = len(qEdges) > 0
+				for _, e := range qEdges {
+					if _, must := sx.MustPassThrough(sx.Node{B: e.To, I: -1}, looksAtNodeCtx, sx.IsReturn); !must {
+						recheck = false
+					}
+				}
+			}
+			if drains && !recheck {
+				l.Bad("C12-X4", key, mc.Pos(), "the per-node request queue can be buffered and the sender drains it before it returns, but enqueue does not look at the node context again after a successful hand-off: a request that gets into the buffer after the sender's last drain (enqueue's select may pick the buffer over the closed context) is never answered")
+				return
+			}
+			l.Check(drains, "C12-X4", key, mc.Pos(), "buffered, but the sender drains the queue before returning and enqueue re-checks the node context after a hand-off",
 				"the per-node request queue can be buffered ("+sx.OriginsString(sx.Origins(mc.Size))+", WithSendBufferSize) and the sender returns on parentCtx.Done() without draining it, while enqueue's select may pick the buffer over the closed context: a request queued at/after Close is never consumed — a QuorumCall with a background context, or any send-waiting one-way call, never returns")
 		})
 	}
